@@ -143,6 +143,12 @@ def load_known() -> dict:
         return json.load(f)
 
 
+def new_findings(ctx: Ctx) -> list[Finding]:
+    """Findings of this run that known_findings.json does not list."""
+    keys = {(k["property"], k["key"]) for k in load_known().get("known", [])}
+    return [f for f in ctx.findings if (ctx.prop, f.key) not in keys]
+
+
 def finish(ctx: Ctx, explanation: str, level: str, t0: float, error: str | None = None) -> int:
     """Print verdict lines, write evidence (+ replay file), return the exit code."""
     known = load_known()
@@ -193,6 +199,12 @@ def finish(ctx: Ctx, explanation: str, level: str, t0: float, error: str | None 
         "exhaustive": False,
         "notes": ctx.notes[:20],
     }
+    st = getattr(ctx, "selftest", None)
+    if st is not None:
+        cov["selftest"] = {
+            "rule": "thorough tier: the check is re-run on scratch copies - every recorded variant this property's rules detect must be reported (must fire), the ast.unparse twin of the tree must give the same findings (must stay silent)",
+            "must_fire": st["must_fire"], "fired": st["fired"], "skipped": st["skipped"], "missed": st["missed"], "format_twin": st["twin"],
+        }
     if error:
         cov["analysis_error"] = error
     ev = {
@@ -208,15 +220,21 @@ def finish(ctx: Ctx, explanation: str, level: str, t0: float, error: str | None 
     }
     with open(os.path.join(evdir, f"{ctx.prop}.json"), "w", encoding="utf-8") as f:
         json.dump(ev, f, indent=1, default=str)
-    if error:
+    if error and not new:
         print(f"ANALYSIS-ERROR property={ctx.prop} {error}")
         return 2
+    if error:
+        # rule instances that completed did fail: that verdict stands; the rules after the
+        # lost anchor were not evaluated
+        print(f"ANALYSIS-INCOMPLETE property={ctx.prop} {error} (the violations above come from rule instances that were fully evaluated)")
     print(
         f"{ctx.prop}: {ctx.obligations} rule instances, {ctx.discharged} hold, "
         f"{len(kf)} known finding(s), {len(new)} violation(s), {wall:.2f}s"
     )
     for rid, r in ctx.rules.items():
         print(f"  {rid}: {r['instances']} instances, {r['failed']} failed - {r['text'][:110]}")
+    if st is not None:
+        print(f"  self-test: {st['fired']} recorded variant(s) detected, {st['skipped']} skipped (patch does not apply), format twin {st['twin']['status']}")
     if new:
         print(f"VIOLATION property={ctx.prop} replay={replay}")
         return 1
